@@ -1,6 +1,7 @@
 (* Properties_C13.v — C13: application-supplied headers can never split a response.
    Only statements, `exact`, non-vacuity examples and Print Assumptions live here. *)
 From Via Require Import M_Char M_Encode P_C13.
+From Via Require Import M_Parse M_Imp M_Loop Gen_Parse P_Split.
 Local Open Scope N_scope.
 
 (* A response the library agrees to send (is_valid) has no empty line anywhere before its last
@@ -48,3 +49,20 @@ Proof. vm_compute. split; reflexivity. Qed.
 Print Assumptions C13_no_early_empty_line.
 Print Assumptions C13_single_terminal_empty_line.
 Print Assumptions C13_split_is_refused.
+
+(* ---- the tie to the source, as a theorem ----
+   are_headers_split - the predicate by which tx_response::is_valid and every send overload refuse a response - is
+   translated from clang's AST on every run (translate/parse.py -> Gen_Parse.v: the initial two-character window, the
+   body of the for loop as a statement of M_Imp.v on the store [prev; pprev] and the character *iter, the final value;
+   the frame "two locals, if non-empty, for over the string, return" is checked by the translator).  The model's
+   are_headers_split, about which the theorems above speak, computes for EVERY header string what the translated
+   function computes. *)
+Theorem C13_are_headers_split_is_the_source : forall hs,
+  run_for (fun _ => 0%N) split_body_src split_final_src (mk_store 0 [] split_init_src) hs = are_headers_split hs.
+Proof. exact are_headers_split_is_the_source. Qed.
+Example C13_split_source_example :
+  run_for (fun _ => 0%N) split_body_src split_final_src (mk_store 0 [] split_init_src) [65;58;49;13;10;13;10;66]%N = true /\
+  run_for (fun _ => 0%N) split_body_src split_final_src (mk_store 0 [] split_init_src) [65;58;49;13;10;66;58;50;13;10]%N = false /\
+  run_for (fun _ => 0%N) split_body_src split_final_src (mk_store 0 [] split_init_src) [13;10;65]%N = true.
+Proof. vm_compute. repeat split. Qed.
+Print Assumptions C13_are_headers_split_is_the_source.
